@@ -68,7 +68,34 @@ def in_domain(w, line):
             sc = sl * sr if op == "dmul" else sl / sr
             mags = [a, b, m1, m2, m1 / smin(tl), m2 / smin(tr), res, res / smin(to), amt]
             return all(ok_mag(x) for x in mags) and ok_mag(sc, False)
-    except (KeyError, TypeError, ZeroDivisionError):
+        if op == "rate":
+            tq, pq = w.by_name[ws[1]], w.by_name[ws[2]]
+            if tq["kind"] != "withref" or pq["kind"] != "withref":
+                return False
+            ta, tu, pm, pu = amount_value(w.be, ws[3]), int(ws[4]), amount_value(w.be, ws[5]), int(ws[6])
+            kind, qi, qa = ws[7], int(ws[8]), amount_value(w.be, ws[9])
+            s_tu, s_pu = tq["units"][tu]["scale_val"], pq["units"][pu]["scale_val"]
+            if ta == 0 or pm == 0:
+                return False          # every line also evaluates the inverse operation: both are divisors
+            if kind == "mulq":        # rate * q, q in units of PQ
+                s_q = pq["units"][qi]["scale_val"]
+                if pm == 0:
+                    return False
+                n_per = qa * s_q / (pm * s_pu)          # number of per-values in q
+                res = ta * n_per                        # in the term unit
+                mags = [ta, pm, qa, ta * s_tu, pm * s_pu, qa * s_q, ta * s_tu / smin(tq), pm * s_pu / smin(pq),
+                        qa * s_q / smin(pq), qa * s_q / s_pu, n_per, res, res * s_tu, res * s_tu / smin(tq)]
+                return all(ok_mag(x) for x in mags) and ok_mag(s_q / s_pu, False) and ok_mag(s_pu / s_q, False)
+            if kind == "divq":        # q / rate, q in units of TQ
+                s_q = tq["units"][qi]["scale_val"]
+                if ta == 0:
+                    return False
+                n_term = qa * s_q / (ta * s_tu)
+                res = pm * n_term
+                mags = [ta, pm, qa, ta * s_tu, pm * s_pu, qa * s_q, ta * s_tu / smin(tq), pm * s_pu / smin(pq),
+                        qa * s_q / smin(tq), qa * s_q / s_tu, n_term, res, res * s_pu, res * s_pu / smin(pq)]
+                return all(ok_mag(x) for x in mags) and ok_mag(s_q / s_tu, False) and ok_mag(s_tu / s_q, False)
+    except (KeyError, TypeError, ZeroDivisionError, ValueError, IndexError):
         return False
     return False
 
@@ -81,7 +108,11 @@ def domain_amount(w, rng, t, i):
     if hi <= lo:
         return None
     e = rng.below(30) - 10
-    x = Fraction(rng.below(9999) + 1, 1000) * Fraction(10) ** e
+    if rng.chance(1, 3):
+        # dense: many significant digits and a few fractional digits (large decimal coefficients)
+        x = Fraction(rng.below(10 ** 21) + 10 ** 20, 10 ** 20) * Fraction(10) ** (rng.below(18)) + Fraction(rng.below(10 ** 5), 10 ** 5)
+    else:
+        x = Fraction(rng.below(9999) + 1, 1000) * Fraction(10) ** e
     x = min(max(x, lo), hi)
     if rng.below(2):
         x = -x
@@ -136,11 +167,19 @@ def gen(w, rng, tier):
         for pq in types:
             tt, tp = w.by_name[tq], w.by_name[pq]
             sp = specials(w.be) + amounts(w.be, rng, 1)
-            for _ in range(per):
+            for _ in range(per * 3):
                 ta, pm, qa = rng.choice(sp)[1], rng.choice(sp)[1], rng.choice(sp)[1]
-                head = f"rate {tq} {pq} {ta} {rng.below(tt['n'])} {pm} {rng.below(tp['n'])}"
-                add("rate:mulq", f"{head} mulq {rng.below(tp['n'])} {qa}")
-                add("rate:divq", f"{head} divq {rng.below(tt['n'])} {qa}")
+                tu, pu = rng.below(tt['n']), rng.below(tp['n'])
+                qi_p, qi_t = rng.below(tp['n']), rng.below(tt['n'])
+                qa2 = qa
+                if w.be == "dec" and tt["kind"] == "withref" and tp["kind"] == "withref" and rng.chance(3, 4):
+                    d1, d2, d3, d4 = (domain_amount(w, rng, tt, tu), domain_amount(w, rng, tp, pu),
+                                      domain_amount(w, rng, tp, qi_p), domain_amount(w, rng, tt, qi_t))
+                    if d1 and d2 and d3 and d4:
+                        ta, pm, qa, qa2 = d1, d2, d3, d4
+                head = f"rate {tq} {pq} {ta} {tu} {pm} {pu}"
+                add("rate:mulq", f"{head} mulq {qi_p} {qa}")
+                add("rate:divq", f"{head} divq {qi_t} {qa2}")
     return ops
 
 
